@@ -43,8 +43,13 @@ func runC19(c *Ctx) {
 		_, f, _, okf := fieldOf(call.Call.Value)
 		return okf && f == "Migration"
 	}
-	cur := func(v ssa.Value) bool { return isResultOfInvoke(v, "CurrentVersion", 0) }
-	latest := func(v ssa.Value) bool { return isResultOfCall(v, "GetLatestVersion", -1) }
+	cur := func(v ssa.Value) bool { return isResultOfInvoke(p.resolveParam(v), "CurrentVersion", 0) }
+	latest := func(v ssa.Value) bool { return isResultOfCall(p.resolveParam(v), "GetLatestVersion", -1) }
+	// the steps of upgrade may have been extracted into helpers: "records the version" / "runs a migration" also hold for
+	// a call of a helper that always does (barriers) resp. may do (targets) so
+	isSetVersionMust := viaHelpers("SetVersion", isSetVersion, true)
+	isSetVersionMay := viaHelpers("SetVersion", isSetVersion, false)
+	isMigrationMay := viaHelpers("Migration", isMigrationCall, false)
 	cmpEdge := func(from *ssa.BasicBlock, si int) string {
 		iff, ok := from.Instrs[len(from.Instrs)-1].(*ssa.If)
 		if !ok {
@@ -101,7 +106,7 @@ func runC19(c *Ctx) {
 				nRev++
 				q := &PathQuery{Fn: up}
 				q.Target = func(ins ssa.Instruction, via *ssa.BasicBlock) bool {
-					if isSetVersion(ins) || isMigrationCall(ins) {
+					if isSetVersionMay(ins) || isMigrationMay(ins) {
 						return true
 					}
 					if r, ok := ins.(*ssa.Return); ok {
@@ -115,7 +120,7 @@ func runC19(c *Ctx) {
 			case "cur<latest":
 				nUp++
 				bad := false
-				q := &PathQuery{Fn: up, Barrier: isSetVersion, Target: p.nonErrorReturn()}
+				q := &PathQuery{Fn: up, Barrier: isSetVersionMust, Target: p.nonErrorReturn()}
 				if len(exploreFromBlock(q, b.Succs[si], b)) > 0 {
 					bad = true
 				}
@@ -125,6 +130,23 @@ func runC19(c *Ctx) {
 	}
 	c.Floor("C19-R1", "'stored > latest' branch", nRev, 1)
 	c.Floor("C19-R1", "'stored < latest' branch", nUp, 1)
+	// the part of upgrade that records the version ("core"): upgrade itself, or the private part its upgrade branch was
+	// extracted into; the loop and SetVersion rules below are stated about that function
+	var sets []*ssa.Call
+	for _, part := range p.regionTop(up) {
+		for _, ci := range callsOf(part) {
+			if call, ok := ci.(*ssa.Call); ok && isSetVersion(call) {
+				sets = append(sets, call)
+			}
+		}
+	}
+	core := up
+	if len(sets) > 0 {
+		core = sets[0].Parent()
+	}
+	upTop := up
+	up = core
+	defer func() { up = upTop }()
 	// migration loop: in upgrade itself, or in a same-package helper that upgrade calls (extracted loop)
 	loops := loopsOf(up)
 	loopFn := up
@@ -171,9 +193,15 @@ func runC19(c *Ctx) {
 				}
 			}
 		}
+		over = p.resolveParam(over)
+		if u, ok := over.(*ssa.UnOp); ok && u.Op == token.MUL {
+			if dv := dominatingStoreVal(u); dv != nil {
+				over = dv
+			}
+		}
 		okOver := false
 		if call, ok := over.(*ssa.Call); ok && call.Call.StaticCallee() == vta {
-			okOver = cur(call.Call.Args[0]) && isResultOfInvoke(call.Call.Args[1], "Versions", -1)
+			okOver = cur(call.Call.Args[0]) && isResultOfInvoke(p.resolveParam(call.Call.Args[1]), "Versions", -1)
 		}
 		c.Check("C19-R1", "loop-over-VersionsToApply(stored,table)", mloop.Header.Instrs[0].Pos(), okOver && (mloop.Kind == "rangeindex" || mloop.Kind == "forindex"),
 			"the migrations applied are not the in-order range over VersionsToApply(stored version, manager's table)")
@@ -249,15 +277,23 @@ func runC19(c *Ctx) {
 		}
 	}
 	// SetVersion: once, outside any loop, after the loop, with the latest version
-	var sets []*ssa.Call
-	for _, ci := range callsOf(up) {
-		if call, ok := ci.(*ssa.Call); ok && isSetVersion(call) {
-			sets = append(sets, call)
-		}
-	}
 	c.Check("C19-R1", "single-SetVersion-site", up.Pos(), len(sets) == 1, fmt.Sprintf("upgrade has %d SetVersion call sites (expected exactly one)", len(sets)))
 	for _, sv := range sets {
 		inLoop := innermostLoopOf(loops, sv) != nil || sv.Parent() != up
+		for f := up; f != upTop && !inLoop; { // the extracted part is itself not called from inside a loop
+			sites := p.realCallers(f)
+			if len(sites) != 1 {
+				inLoop = true
+				break
+			}
+			if innermostLoopOf(loopsOf(sites[0].Parent()), sites[0]) != nil {
+				inLoop = true
+			}
+			f = sites[0].Parent()
+			if !p.inRegion(upTop, f) {
+				inLoop = true
+			}
+		}
 		c.Check("C19-R1", "SetVersion-outside-loop", sv.Pos(), !inLoop,
 			"the stored version is advanced inside the migration loop: a failure at a later migration leaves the version changed")
 		// a failed version write is an error of the upgrade
@@ -431,6 +467,7 @@ func runC19(c *Ctx) {
 	}
 	checkMigrationRefusalBeforeWrites(c, "C19-R4")
 	checkUpgradeStopsAtFirstFailure(c, "C19-R1")
+	checkMigrationErrorDiscipline(c, "C19-R1")
 }
 
 func isResultOfInvoke(v ssa.Value, method string, idx int) bool {
@@ -718,6 +755,58 @@ func versionTable(p *Program, pkg string) ([]int64, token.Pos, bool) {
 // checkUpgradeStopsAtFirstFailure: migration.Upgrade runs the managers one after the other inside the caller's single
 // database transaction and relies on the returned error to have it rolled back: the first failing manager ends the
 // loop with that error — no later manager is upgraded after it, and no later success can overwrite the error.
+// migrationFunctions: the functions listed in the Migration slot of the components' version tables, with their private parts.
+func migrationFunctions(p *Program) map[*ssa.Function]bool {
+	out := map[*ssa.Function]bool{}
+	for _, fn := range p.RepoFuncs {
+		for _, b := range fn.Blocks {
+			for _, ins := range b.Instrs {
+				st, ok := ins.(*ssa.Store)
+				if !ok {
+					continue
+				}
+				fa, ok := st.Addr.(*ssa.FieldAddr)
+				if !ok {
+					continue
+				}
+				if tn, f := fieldAddrName(fa); tn != "Version" || f != "Migration" {
+					continue
+				}
+				if g := fnValueOf(st.Val); g != nil {
+					for _, part := range p.regionOf(g) {
+						out[part] = true
+					}
+				}
+			}
+		}
+	}
+	return out
+}
+
+// checkMigrationErrorDiscipline: "if a migration fails the stored version is unchanged" presupposes that a migration
+// whose write failed says so: inside the listed migration functions no error of a database write is dropped, swallowed
+// (logged and replaced by success) or overwritten — otherwise upgrade records the new version over half-applied data.
+func checkMigrationErrorDiscipline(c *Ctx, rule string) {
+	p := c.P
+	migs := migrationFunctions(p)
+	c.Floor(rule, "functions listed as migrations (with their private parts)", len(migs), 6)
+	ed := newErrDisc(p)
+	n := 0
+	for _, s := range ed.sitesIn(c10Pkgs) {
+		fn := s.call.Parent()
+		if !migs[outermost(fn)] && !migs[fn] {
+			continue
+		}
+		n++
+		key := fmt.Sprintf("migration-write-error-propagates:%s/%s", fnName(fn), ed.siteName(s.call))
+		if !s.res.ok {
+			key = "migration-write-error-propagates:" + fnName(fn) + "!" + s.res.kind
+		}
+		c.Check(rule, key, s.call.Pos(), s.res.ok, s.res.detail)
+	}
+	c.Floor(rule, "database write sites inside migration functions", n, 10)
+}
+
 func checkUpgradeStopsAtFirstFailure(c *Ctx, rule string) {
 	p := c.P
 	up := p.Func("walletdb/migration", "", "Upgrade")
